@@ -793,6 +793,20 @@ where
         .boxed()
     }
 
+    /// Verification harness only: mark every block as being in probation (about to be reclaimed), as the eviction
+    /// picker does for the oldest blocks of a full device.
+    #[cfg(feature = "verif")]
+    pub fn verif_mark_probation(&self) {
+        for id in 0..self.inner.block_manager.blocks() as BlockId {
+            self.inner
+                .block_manager
+                .block(id)
+                .statistics()
+                .probation
+                .store(true, Ordering::Relaxed);
+        }
+    }
+
     #[cfg(any(test, feature = "test_utils"))]
     pub fn hold_flush(&self) {
         self.inner.flush_switch.on();
